@@ -1,20 +1,25 @@
 #!/bin/bash
-# tools/kill_matrix.sh [tier] -- run every seeded change against the check of its property (plus overrides); writes seeded/KILL_MATRIX.md
-tier=${1:-quick}
+# tools/kill_matrix.sh [tier] [parallel] -- run every seeded change against the check of its property (plus the history
+# checks some changes need); writes seeded/KILL_MATRIX.md.  Every run uses its own scratch worktree (tools/run_seeded.sh).
+tier=${1:-quick}; par=${2:-4}
 cd /verif
-declare -A EXTRA=( [C01-w1]="C15" [C02-w1]="C17" [C04-w2]="C15" [C13-m2]="C15" [C11-m2]="C19" [C12-m2]="C04" [C04-m2]="C04" [regress-D3]="C10" [regress-D4]="C10" [regress-D1]="C02 C10" )
-out=seeded/KILL_MATRIX.md
-echo "| seed | property | check | result |" > $out.tmp; echo "|---|---|---|---|" >> $out.tmp
+declare -A EXTRA=( [C01-w1]="C15" [C02-w1]="C17" [C04-w2]="C15" [C13-m2]="C15" [C11-m2]="C19" [C12-m2]="C04" [C04-m2]="C04"
+  [regress-D3]="C10" [regress-D4]="C10" [regress-D1]="C02 C10" [regress-D21]="C02 C10"
+  [C07-x1]="C17" [C08-x1]="C17" [C09-x1]="C17" [C12-x2]="C15" [C20-x1]="C06" [C17-y2]="C02" )
+jobs=$(mktemp)
 for d in seeded/*/; do
   id=$(basename $d)
   prop=$(python3 -c "import json;print(json.load(open('$d/meta.json'))['property'])")
-  checks="$prop ${EXTRA[$id]}"
-  for c in $(echo $checks | tr ' ' '\n' | sort -u); do
-    r=$(./tools/run_seeded.sh $id $c $tier 2>&1 | grep "^SEEDED")
-    rc=$(echo "$r" | sed 's/.*rc=\([0-9]*\).*/\1/'); nv=$(echo "$r" | sed 's/.*violations=\([0-9]*\).*/\1/')
-    res="MISSED"; [ "$rc" = "1" ] && res="detected ($nv violation classes)"; [ "$rc" = "2" ] && res="machinery error"
-    echo "| $id | $prop | $c | $res |" >> $out.tmp
-    echo "$id $c $res"
-  done
+  for c in $(echo "$prop ${EXTRA[$id]}" | tr ' ' '\n' | sort -u); do echo "$id $prop $c" >> $jobs; done
 done
-mv $out.tmp $out
+res=$(mktemp)
+cat $jobs | xargs -P $par -L 1 bash -c '
+  id=$0; prop=$1; c=$2
+  r=$(./tools/run_seeded.sh $id $c '$tier' 2>&1 | grep "^SEEDED")
+  rc=$(echo "$r" | sed "s/.*rc=\([0-9]*\).*/\1/"); nv=$(echo "$r" | sed "s/.*violations=\([0-9]*\).*/\1/")
+  out="MISSED"; [ "$rc" = "1" ] && out="detected ($nv violation classes)"; [ "$rc" = "2" ] && out="machinery error"; [ -z "$rc" ] && out="not run"
+  echo "| $id | $prop | $c | $out |" >> '$res'
+  echo "$id $c $out"
+'
+{ echo "| seed | property | check | result |"; echo "|---|---|---|---|"; sort $res; } > seeded/KILL_MATRIX.md
+rm -f $jobs $res
